@@ -243,7 +243,7 @@ def namesDistinct : List String → Bool
 def conformsTo (c : Ctor) (s : Schema) : Bool :=
   -- operator name, domain, since-version
   c.cls.opName == s.name && c.cls.domain == s.domain && c.cls.version == s.since &&
-  c.cls.base == "StandardNode" &&
+  !s.deprecated && c.cls.base == "StandardNode" &&
   -- number, order, names, kinds of inputs and outputs
   c.cls.inputs == s.inputs && c.cls.outputs == s.outputs &&
   -- positional parameters ↔ inputs, in order
@@ -266,9 +266,15 @@ def entryOK (e : Entry) : Bool := e.2.1.cls.pyName == e.1 && conformsTo e.2.1 e.
 def dropAttrs (s : Schema) (names : List String) : Schema :=
   { s with attrs := s.attrs.filter (fun a => !names.contains a.name) }
 
-/-- Conformance in everything but the listed schema attributes (known deviations). -/
+/-- the pseudo-name `"@deprecated"` in a deviation list stands for "the schema in force is marked
+    deprecated by ONNX" -/
+def undeprecate (s : Schema) (names : List String) : Schema :=
+  if names.contains "@deprecated" then { s with deprecated := false } else s
+
+/-- Conformance in everything but the listed deviations (known findings): schema attributes
+    without counterpart, and/or the schema being deprecated at the module's version. -/
 def entryOKExcept (names : List String) (e : Entry) : Bool :=
-  entryOK (e.1, e.2.1, dropAttrs e.2.2 names)
+  entryOK (e.1, e.2.1, undeprecate (dropAttrs e.2.2 names) names)
 
 theorem all_nil {α : Type} {f : α → Bool} : ([] : List α).all f = true := rfl
 
